@@ -451,7 +451,9 @@ func (r *RR) Rest() int { return len(r.B) - r.Off }
 
 // ---- message bodies (spec §4) ----
 
-func rUsesIntQueryFlags(version byte) bool { return version == 5 || version == 0x42 }
+// <flags> of QUERY is a [byte] in v2-v4 and an [int] in v5 (native_protocol_v5.spec §4.1.4) and in both
+// DSE versions (dse_protocol_v1.spec §4.1.4: "<flags> is a [int]").
+func rUsesIntQueryFlags(version byte) bool { return version == 5 || version == 0x41 || version == 0x42 }
 
 func RBodyStartup(options map[string]string) []byte {
 	var w RW
